@@ -39,6 +39,13 @@ CLAIMS = {
    note="the model keeps the RETURN flag in its own field; the code keeps it under the string key 'returned' (known finding K5), which the oracle allows for exactly that key.",
    technique="Lean 4 frame theorem generic over the op table + recording-dict oracle on the implementation + differential correspondence",
    design="§5 C08"),
+ 'C16': dict(
+   text="Proved for every non-empty constraint of any length, every integer timestamp, clock and threshold, from any stack with room: OP_CHECK_TIMESTAMP pops c and pushes true exactly when t >= c and (thr <= 0 or t - now < thr) (c read unsigned); "
+        "OP_CHECK_EPOCH exactly when c - now < thr; the empty constraint is an error; the value left by the before-lock is characterised exactly (t < ts OR the future-slack clause), which is the full statement of known finding K1, with the partial theorem (= t < ts when the slack clause is off) and a decide-checked K1 witness. "
+        "Tie: exhaustive +-2 grid around every boundary x constraint encodings of 1-9 bytes x thresholds with a pinned fractional clock on the four instructions and the three lock builders (bytes compared with the model's builders), each grid point judged on the implementation alone by the documented formula.",
+   note="the builders' bytes are tied differentially (BUILD lines); the after/between lock end-to-end statements follow from the instruction theorems by composition that is exercised, not separately proved.",
+   technique="Lean 4 proof by symbolic execution of the instruction's op term (omega on Int) + exhaustive boundary-grid oracle + differential correspondence",
+   design="§5 C16"),
  'C10': dict(
    text="Lean theorems over all integers / all byte strings: bytesToInt (intToBytes n) = some n, decoding total exactly on non-empty strings, decoded range, "
         "top bit of the encoding = sign, and minimality of the encoding (no shorter string decodes to n). The model is tied to int_to_bytes / bytes_to_int / "
